@@ -225,7 +225,11 @@ class ECDHESAlgModel(JWEKeyAgreement):
         assert recipient_key is not None
 
         self.check_key_type(recipient_key)
-        ephemeral_key = recipient_key.import_key(headers["epk"])
+        try:
+            ephemeral_key = recipient_key.import_key(headers["epk"])
+        except ValueError as error:
+            # e.g. the "epk" of a recipient on another curve family
+            raise DecodeError(f'Invalid "epk": {error}')
         shared_key = recipient_key.exchange_derive_key(ephemeral_key)
         return derive_key_for_concat_kdf(shared_key, headers, enc.cek_size, self.key_size)
 
